@@ -371,7 +371,9 @@ fn random_faults(seed: u64, thorough: bool, rep: &Report) -> Result<(), String> 
                 rep.count("failed_because_server_broke_under_statement", 1);
                 // (b) that server, if a replica, must be banned shortly afterwards
                 for m in &where_ran {
-                    if lay.replicas.contains(m) && (fault_active(*m, t.t_send, t.t_done) || stale) && t.t_done + 1_500_000_000 < t_end {
+                    // (a pooled connection that died in an earlier fault only shows when it is next
+                    // used; the server itself may be healthy again, so no ban is required then)
+                    if lay.replicas.contains(m) && fault_active(*m, t.t_send, t.t_done) && t.t_done + 1_500_000_000 < t_end {
                         let banned = ban_events.iter().any(|b| b.1 == *m && b.0 + 50_000_000 >= t.t_send && b.0 <= t.t_done + 1_500_000_000);
                         if !banned {
                             rep.violation(
@@ -435,7 +437,9 @@ fn random_faults(seed: u64, thorough: bool, rep: &Report) -> Result<(), String> 
                         };
                         let lo = tb + 20_000_000;
                         let hi = tb + ban_secs * 1_000_000_000;
-                        if t.t_send > lo && t.t_send < hi {
+                        // the pooler looks at the ban list when it checks a server out, which is some
+                        // time after the client sent: the whole transaction must lie inside the ban
+                        if t.t_send > lo && t.t_done < hi {
                             // no UNBAN in between, and not every replica banned (unban-all)
                             let unbanned = admins.iter().any(|a| a.what == "UNBAN" && a.mock == m && a.t_sent <= t.t_done && a.t_done >= *tb);
                             let banned_replicas: HashSet<usize> = ban_events.iter().filter(|b| b.0 <= t.t_done && b.0 + (ban_secs.max(lay.ban_time) + 3) * 1_000_000_000 >= *tb).map(|b| b.1).collect();
